@@ -1,6 +1,226 @@
-(* Properties/C03.v — placeholder until Model/Export.v is assembled. *)
-From Coq Require Import List.
+(* Properties/C03.v — export then re-import preserves the lexicons — the export half (model: Model/Export.v written from wn/_export.py over
+   the query model Model/Query.v; the dump/load half of the round trip is Properties/C02.v, the add half C01/C05).
+   Well-formedness predicates (Proofs/ExportProofs.v, all boolean, all true on real dumps: Example sample_wf):
+   wf_*_rowids = table in strictly increasing rowid order; wf_entry_forms = every entry has a form; wf_form_ranks = a rank-0
+   form and no NULL/negative rank; wf_sense_refs = senses resolve; wf_sense_entries/ids/sb_links = per-lexicon consistency;
+   ili_ids_ok = no ILI is called "" or "in".
+   Statements only: every theorem is closed by `exact` of a lemma proved under Proofs/, followed by
+   Print Assumptions.  (Statement texts were printed by Coq from the proved lemmas by harness/mkprops.py and are
+   fixed from then on.) *)
+From Coq Require Import String.
+From Coq Require Import ZArith List Bool.
 Import ListNotations.
-Example C03_placeholder : length (@nil nat) = 0.
-Proof. reflexivity. Qed.
-Print Assumptions C03_placeholder.
+Require Import WnV.Base.Sx WnV.Model.Val WnV.Model.Tables WnV.Model.Query WnV.Model.Export WnV.Proofs.ExportProofs.
+Local Open Scope Z_scope.
+
+(* ---- E1: export refuses exactly the lexicon lists whose identifier sets clash *)
+Theorem C03_E1_precheck :
+  forall (d : db) (lexs : list lexicon_row),
+         _precheck d lexs = Ok tt <-> pairwise_disjoint (map (lexicon_idset d) lexs).
+Proof. exact (@E1_precheck). Qed.
+Print Assumptions C03_E1_precheck.
+
+Theorem C03_E1_precheck_error :
+  forall (d : db) (lexs : list lexicon_row),
+         ~ pairwise_disjoint (map (lexicon_idset d) lexs) -> _precheck d lexs = WnError.
+Proof. exact (@E1_precheck_error). Qed.
+Print Assumptions C03_E1_precheck_error.
+
+Theorem C03_E1_idset :
+  forall (d : db) (lex : lexicon_row) (x : str),
+         incr (map en_rowid (t_entries d)) ->
+         In x (lexicon_idset d lex) <->
+         x = lex_id lex \/
+         (exists e : entry_row, In e (exported_entries d (lex_rowid lex)) /\ en_id e = x) \/
+         (exists s : sense_row,
+            In s (t_senses d) /\
+            se_lexicon_rowid s = lex_rowid lex /\ sense_ok d s = true /\ se_id s = x) \/
+         (exists ss : synset_row, In ss (lexicon_synsets d (lex_rowid lex)) /\ sy_id ss = x).
+Proof. exact (@E1_idset). Qed.
+Print Assumptions C03_E1_idset.
+
+(* ---- E2: nothing lost, nothing invented: every entry of the lexicon once, in rowid order, with id, pos, lemma = rank-0 form, forms in rank order, and its senses in entry-rank order; every synset once *)
+Theorem C03_E2_entries :
+  forall (d : db) (mt : mtab) (lex : lexicon_row) (ver : list Z) (v : val),
+         wf_entry_rowids d = true ->
+         _export_lexicon d mt lex ver = Ok v ->
+         Forall2 (entry_rel d (lex_rowid lex)) (exported_entries d (lex_rowid lex))
+           (vlist v (K "entries")).
+Proof. exact (@E2_entries). Qed.
+Print Assumptions C03_E2_entries.
+
+Theorem C03_E2_entries_all :
+  forall (d : db) (r : Z),
+         wf_entry_forms d = true -> exported_entries d r = lexicon_entries d r.
+Proof. exact (@E2_entries_all). Qed.
+Print Assumptions C03_E2_entries_all.
+
+Theorem C03_E2_lemma_rank0 :
+  forall (d : db) (r : Z) (e : entry_row) (ev : val),
+         wf_form_ranks d = true ->
+         In e (exported_entries d r) ->
+         entry_rel d r e ev ->
+         exists f0 : form_row,
+           In f0 (t_forms d) /\
+           fm_entry_rowid f0 = en_rowid e /\
+           fm_rank f0 = Some 0 /\ vget (vget ev (K "lemma")) (K "writtenForm") = VStr (fm_form f0).
+Proof. exact (@E2_lemma_rank0). Qed.
+Print Assumptions C03_E2_lemma_rank0.
+
+Theorem C03_E2_senses_all :
+  forall (d : db) (mt : mtab) (lex : lexicon_row) (ver : list Z) (v : val) (s : sense_row),
+         wf_entry_rowids d = true ->
+         wf_entry_forms d = true ->
+         wf_sense_refs d = true ->
+         wf_sense_entries d (lex_rowid lex) = true ->
+         _export_lexicon d mt lex ver = Ok v ->
+         In s (t_senses d) ->
+         se_lexicon_rowid s = lex_rowid lex ->
+         exists (e : entry_row) (ev : val),
+           In e (lexicon_entries d (lex_rowid lex)) /\
+           en_rowid e = se_entry_rowid s /\
+           In ev (vlist v (K "entries")) /\
+           vget ev (K "id") = VStr (en_id e) /\
+           In (VStr (se_id s)) (map (fun sv : val => vget sv (K "id")) (vlist ev (K "senses"))).
+Proof. exact (@E2_senses_all). Qed.
+Print Assumptions C03_E2_senses_all.
+
+Theorem C03_E2_senses_only :
+  forall (d : db) (r : Z) (e : entry_row) (s : sense_row),
+         In s (entry_senses d r e) ->
+         In s (t_senses d) /\ se_lexicon_rowid s = r /\ se_entry_rowid s = en_rowid e.
+Proof. exact (@E2_senses_only). Qed.
+Print Assumptions C03_E2_senses_only.
+
+Theorem C03_E2_synsets :
+  forall (d : db) (mt : mtab) (lex : lexicon_row) (ver : list Z) (v : val),
+         wf_synset_rowids d = true ->
+         _export_lexicon d mt lex ver = Ok v ->
+         Forall2
+           (fun (ss : synset_row) (sv : val) =>
+            vget sv (K "id") = VStr (sy_id ss) /\ vget sv (K "partOfSpeech") = vos (sy_pos ss))
+           (lexicon_synsets d (lex_rowid lex)) (vlist v (K "synsets")).
+Proof. exact (@E2_synsets). Qed.
+Print Assumptions C03_E2_synsets.
+
+(* ---- E3: sense-frame links: >= 1.1 subcat lists exactly the ids of the linked behaviours that have an id (frames without id cannot be referenced: finding F18); 1.0 frames list exactly the linked senses *)
+Theorem C03_E3_subcat :
+  forall (d : db) (mt : mtab) (lex : lexicon_row) (ver : list Z) (v ev sv : val) (x : str),
+         ge_1_1 ver = true ->
+         _export_lexicon d mt lex ver = Ok v ->
+         In ev (vlist v (K "entries")) ->
+         In sv (vlist ev (K "senses")) ->
+         In (VStr x) (vlist sv (K "subcat")) <->
+         x <> [] /\ (exists f : str, sb_link d (lex_rowid lex) (sense_val_id sv) (Some x) f).
+Proof. exact (@E3_subcat). Qed.
+Print Assumptions C03_E3_subcat.
+
+Theorem C03_E3_frames_1_0 :
+  forall (d : db) (mt : mtab) (lex : lexicon_row) (ver : list Z) (v ev : val) (fr sid : str),
+         ge_1_1 ver = false ->
+         _export_lexicon d mt lex ver = Ok v ->
+         In ev (vlist v (K "entries")) ->
+         (exists fv : val,
+            In fv (vlist ev (K "frames")) /\
+            vget fv (K "subcategorizationFrame") = VStr fr /\ In (VStr sid) (vlist fv (K "senses"))) <->
+         (exists sv : val, In sv (vlist ev (K "senses")) /\ sense_val_id sv = sid) /\
+         (exists i : option str, sb_link d (lex_rowid lex) sid i fr).
+Proof. exact (@E3_frames_1_0). Qed.
+Print Assumptions C03_E3_frames_1_0.
+
+Theorem C03_sb_link_this_sense :
+  forall (d : db) (r : Z) (s0 : sense_row) (i : option str) (f : str),
+         wf_sense_rowids d = true ->
+         wf_sb_rowids d = true ->
+         wf_sense_ids d r = true ->
+         wf_sb_links d r = true ->
+         In s0 (t_senses d) ->
+         se_lexicon_rowid s0 = r -> sb_link d r (se_id s0) i f <-> sb_link_row d r s0 i f.
+Proof. exact (@sb_link_this_sense). Qed.
+Print Assumptions C03_sb_link_this_sense.
+
+(* ---- E4: the ili attribute: the ILI id when the synset has an ILI, "in" exactly for a proposed ILI, "" otherwise *)
+Theorem C03_E4_spec :
+  forall (d : db) (mt : mtab) (lex : lexicon_row) (ver : list Z) (v : val),
+         wf_synset_rowids d = true ->
+         _export_lexicon d mt lex ver = Ok v ->
+         Forall2 (fun (ss : synset_row) (sv : val) => vget sv (K "ili") = VStr (ili_spec d ss))
+           (lexicon_synsets d (lex_rowid lex)) (vlist v (K "synsets")).
+Proof. exact (@E4_spec). Qed.
+Print Assumptions C03_E4_spec.
+
+Theorem C03_E4 :
+  forall (d : db) (mt : mtab) (lex : lexicon_row) (ver : list Z) (v : val),
+         wf_synset_rowids d = true ->
+         ili_ids_ok d = true ->
+         _export_lexicon d mt lex ver = Ok v ->
+         Forall2 (ili_rel d) (lexicon_synsets d (lex_rowid lex)) (vlist v (K "synsets")).
+Proof. exact (@E4). Qed.
+Print Assumptions C03_E4.
+
+Theorem C03_E4_counterexample :
+  ili_spec cex_db cex_synset = K "in" /\
+         ili_row_of cex_db cex_synset <> None /\ has_proposed cex_db cex_synset = false.
+Proof. exact (@E4_counterexample). Qed.
+Print Assumptions C03_E4_counterexample.
+
+(* ---- E5: members (>= 1.1) = the sense ids of the synset in synset-rank order *)
+Theorem C03_E5 :
+  forall (d : db) (mt : mtab) (lex : lexicon_row) (ver : list Z) (v : val),
+         wf_synset_rowids d = true ->
+         ge_1_1 ver = true ->
+         _export_lexicon d mt lex ver = Ok v ->
+         Forall2
+           (fun (ss : synset_row) (sv : val) =>
+            vlist sv (K "members") =
+            map (fun s : sense_row => VStr (se_id s)) (synset_members d (lex_rowid lex) ss))
+           (lexicon_synsets d (lex_rowid lex)) (vlist v (K "synsets")).
+Proof. exact (@E5). Qed.
+Print Assumptions C03_E5.
+
+Theorem C03_senses_by_all :
+  forall (d : db) (r : Z) (src : sense_row -> Z) (rank : sense_row -> option Z) (rowid : Z),
+         wf_sense_refs d = true ->
+         senses_by d r src rank rowid =
+         sort_by_oz rank
+           (filter (fun s : sense_row => (src s =? rowid) && (se_lexicon_rowid s =? r)) (t_senses d)).
+Proof. exact (@senses_by_all). Qed.
+Print Assumptions C03_senses_by_all.
+
+(* ---- non-vacuity on a database dumped from the real implementation *)
+Theorem C03_sample_wf :
+  wf_entry_rowids sample_db = true /\
+         wf_synset_rowids sample_db = true /\
+         wf_entry_forms sample_db = true /\
+         wf_sense_refs sample_db = true /\
+         wf_sense_entries sample_db 1 = true /\
+         wf_form_ranks sample_db = true /\
+         wf_sense_rowids sample_db = true /\
+         wf_sb_rowids sample_db = true /\
+         wf_sense_ids sample_db 1 = true /\
+         wf_sb_links sample_db 1 = true /\ ili_ids_ok sample_db = true.
+Proof. exact (@sample_wf). Qed.
+Print Assumptions C03_sample_wf.
+
+Theorem C03_sample_exports :
+  match get_lexicon sample_db 1 with
+         | Ok lex =>
+             match _export_lexicon sample_db sample_mt lex [1; 1] with
+             | Ok _ =>
+                 match _export_lexicon sample_db sample_mt lex [1; 0] with
+                 | Ok _ => true
+                 | _ => false
+                 end
+             | _ => false
+             end
+         | _ => false
+         end = true.
+Proof. exact (@sample_exports). Qed.
+Print Assumptions C03_sample_exports.
+
+Theorem C03_sample_precheck :
+  _precheck sample_db (t_lexicons sample_db) = Ok tt /\
+         _precheck sample_db (t_lexicons sample_db ++ t_lexicons sample_db) = WnError.
+Proof. exact (@sample_precheck). Qed.
+Print Assumptions C03_sample_precheck.
+
